@@ -25,7 +25,9 @@ RULE = ("histories of 3-11 operations on a fresh in-memory cluster of 1-3 nodes 
         "and by name (indexes with and without their dependants, duplicates, already deleted keys, internal channels), "
         "channel-service restarts, counter bumps to the 2^20 boundary; two create requests in overlapping transactions "
         "on one node committed in reverse order, then a restart of that node's channel service over the same DB and "
-        "engines and one more create (keys at or below the persisted counter, never handed out twice); free virtual channels deleted THROUGH a "
+        "engines and one more create (keys at or below the persisted counter, never handed out twice); rename chains that return to an earlier name of the same channel (A->B->A, "
+        "A->B->C->A) followed by a create (plain or retrieve-if-exists), a rename of another channel onto that name, or a "
+        "delete by that name; free virtual channels deleted THROUGH a "
         "node other than the bootstrapper, followed by creates and renames validated on node 1 that mix the deleted "
         "name with names still in use or take the deleted name twice; scripted storage "
         "faults (every node's engine sits on a file-system wrapper; 'the next meta.json persist on node i fails once', "
@@ -332,6 +334,48 @@ def gen_case(rng):
                 ops.append({"op": "restart", "gw": gw})
             ops.append({"op": "create", "gw": rng.choice([gw, gw, rng.choice(nodes)]), "chans": [leased_new("pc")],
                         "retrieve": False, "over": False})
+            continue
+        if 0.25 <= y < 0.33:
+            # a rename chain that RETURNS to an earlier name of the same channel (A->B->A, A->B->C->A), then other
+            # requests reach for that name: it is taken (create refused with validation on, retrieve-if-exists hands
+            # the renamed-back channel out, a rename of another channel onto it is refused)
+            cands = [nn for nn, (l, kd) in sh.live.items() if kd in ("virtual", "free", "index", "data", "var")
+                     and not nn.endswith("_time")]
+            if cands and rng.random() < 0.5:
+                a = rng.choice(cands)
+                al, akd = sh.live[a]
+            else:
+                a = sh.fresh(rng, "ra")
+                al = rng.choice(nodes + [FREE])
+                akd = "free" if al == FREE else rng.choice(["virtual", "index"])
+                ops.append({"op": "create", "gw": rng.choice(nodes), "retrieve": False, "over": False,
+                            "chans": [_spec(a, al, "timestamp", True) if akd == "index" else
+                                      _spec(a, al, "float64", False, 0, "", True)]})
+                sh.live[a] = (al, akd)
+                if akd == "index":
+                    sh.idx[a] = al
+            chain = [sh.fresh(rng, "rb") for _ in range(rng.choice([1, 1, 2]))] + [a]
+            cur = a
+            for nxt in chain:
+                ops.append({"op": "rename", "gw": rng.choice(nodes), "by": [cur], "dead": [-1], "keys": [0], "names": [nxt]})
+                cur = nxt
+            other = [nn for nn in sh.live if nn != a and not nn.endswith("_time")]
+            k = rng.random()
+            tl = rng.choice([0, al if al != FREE else 1, rng.choice(nodes), FREE])
+            if k < 0.45:
+                ops.append({"op": "create", "gw": rng.choice(nodes), "retrieve": False, "over": False,
+                            "chans": [_spec(a, tl, "float64", False, 0, "", True)]})
+            elif k < 0.7:
+                ops.append({"op": "create", "gw": rng.choice(nodes), "retrieve": True, "over": False,
+                            "chans": [_spec(a, tl, "float64", False, 0, "", True)]})
+            elif other:
+                ops.append({"op": "rename", "gw": rng.choice(nodes), "by": [rng.choice(other)], "dead": [-1], "keys": [0],
+                            "names": [a]})
+            else:
+                ops.append({"op": "delete_by_name", "gw": rng.choice(nodes), "names": [a]})
+                sh.live.pop(a, None)
+                sh.idx.pop(a, None)
+                sh.dead += 1
             continue
         if 0.17 <= y < 0.25 and n >= 2:
             # a free (leaseholder-less) virtual channel, stored by the bootstrapper, is deleted THROUGH ANOTHER node;
